@@ -21,8 +21,9 @@ EXPLANATION = (
     "R17a: format_contraction / format_einsum_contraction / format_libtensor_contraction on a table of contractions "
     "(reorder, diagonal, trace, pair, hyper-contraction, outer product, inner product, scalar factor, general-space "
     "indices, look-alike names, nested inner contraction from the cache) evaluate to sum_contracted prod operands in "
-    "target order (einsum) / by labels (libtensor); a missing inner contraction raises, libtensor partial traces and "
-    "index-free products are refused with NotImplementedError. R17b: format_contraction, format_scaling_comment, "
+    "target order (einsum) / by labels (libtensor), incl. target indices that sit on two or three operands of one "
+    "contraction (elementwise products); a missing inner contraction raises, libtensor partial traces are refused with "
+    "NotImplementedError. R17b: format_contraction, format_scaling_comment, "
     "format_prefactor refuse an unknown backend with NotImplementedError and _format_python_prefactor/"
     "_format_cpp_prefactor refuse numbers outside integer/rational/sqrt/products; the scaling comment is a one-line "
     "comment of the backend. R17c: decision table of translate_adcc_names / translate_libadc_names over configured and "
@@ -63,6 +64,9 @@ ASSUMPTIONS = [
     "label is not decided",
     "the text of the scaling comment (N^k: O^n V^m) is not decided, only that it is a one-line comment of the backend",
     "exception messages are not decided, only the exception class",
+    "format_einsum_contraction / format_libtensor_contraction are helpers of format_contraction: they are evaluated "
+    "through it only (their own parameter lists are not an anchor); the refusal of a product of several index-free "
+    "'tensors' in format_libtensor_contraction is unreachable through format_contraction and not decided",
     "libtensor, sum over the axes of a single tensor (sum_a A_ia -> i): the library refuses with AssertionError instead "
     "of the documented NotImplementedError; both classes are accepted as refusal here (reported, not decided)",
 ]
@@ -247,7 +251,7 @@ class Ordered(Rec):
 def index(name, space, spin=""):
     sp = SPACE[space]
     return Rec("indices:Index", name + (f"_{spin}" if spin else ""), name=name, space=sp, spin=spin,
-               space_and_spin=(sp, spin))
+               space_and_spin=(sp, spin), dummy_index=10000 + sum(ord(ch) * 131 ** k for k, ch in enumerate(name + spin)))
 
 
 class World:
@@ -455,8 +459,8 @@ def contraction_cases(w, cname):
     i, j, k, l, a, b, c = w("ijklabc")
     cases = []
 
-    def add(label, names, indices, target, inner=None):
-        cases.append((label, contraction(cname, 90 + len(cases), names, indices, target), inner or {}))
+    def add(label, names, indices, target, inner=None, external=None):
+        cases.append((label, contraction(cname, 90 + len(cases), names, indices, target, external), inner or {}))
     add("reorder x_ai -> ia", ["x_vo"], [(a, i)], (i, a))
     add("identity x_ia -> ia", ["x_ov"], [(i, a)], (i, a))
     add("eri block reordered", [f"{ERI}_oovv"], [(i, j, a, b)], (i, a, j, b))
@@ -474,6 +478,14 @@ def contraction_cases(w, cname):
     add("general-space indices", [f"{FOCK}_gg", "B_go"], [(p_, q_), (q_, i)], (p_, i))
     add("diagonal d_ii -> i", ["A_oo"], [(i, i)], (i,))
     add("target index on both operands", ["A_oo", "B_oo"], [(i, k), (i, k)], (i,))
+    add("elementwise product A_ia B_ia -> ia", ["A_ov", "B_ov"], [(i, a), (i, a)], (i, a))
+    add("elementwise in i, outer in a, b", ["A_ov", "B_ov"], [(i, a), (i, b)], (i, a, b))
+    add("target index on three operands, one summed", ["A_oo", "B_ov", "C_ov"], [(i, j), (j, a), (i, a)], (i, a))
+    add("scalar factor times the sum of a tensor", ["c0", "A_ov"], [(), (i, a)], (), external=())
+    add("two scalar factors times a pair", ["c0", "c1", "A_oo", "B_ov"], [(), (), (i, j), (j, a)], (i, a))
+    add("only scalar factors", ["c0", "c1"], [(), ()], ())
+    add("double diagonal A_iaia -> ia", ["A_ovov"], [(i, a, i, a)], (i, a))
+    add("transposition A_ij -> ji", ["A_oo"], [(i, j)], (j, i))
     # nested: the first operand is the result of an earlier contraction
     inner = contraction(cname, 7, ["A_oo", "B_ov"], [(i, j), (j, a)], (i, l))
     add("nested inner contraction", [cname(7), "C_ov"], [inner.attrs["target"], (l, a)], (i, l), {cname(7): inner})
@@ -526,6 +538,12 @@ def r17a(ctx):
                 ctx.bad(rule, fn, f"{key}: inner contraction {bad}", key=key)
                 continue
             outs = sx.run(fn, lambda: dict(contraction=contr, contraction_cache=dict(cache), backend=backend))
+            if backend == "libtensor" and lt_single_sum(contr.attrs["indices"], contr.attrs["contracted"]):
+                n += 1
+                ok = bool(outs) and all(o.kind == "raise" and o.exc in ("AssertionError", "NotImplementedError") for o in outs)
+                ctx.check(rule, fn, ok, f"{key}: refused (no libtensor expression for a sum over one tensor)",
+                          f"format_contraction({key}): a sum over the axes of a single tensor has to be refused, but: {outs}", key=key)
+                continue
             text, why = concrete(outs)
             if text is None:
                 ctx.bad(rule, fn, f"format_contraction({key}) {why}", key=key)
@@ -549,7 +567,7 @@ def r17a(ctx):
         ctx.check(rule, fn, bool(outs) and all(o.kind == "raise" for o in outs), f"{backend}: unknown inner contraction refused",
                   f"{backend}: an inner contraction that was never emitted is silently used as an operand: {outs}",
                   key=f"{backend} cache miss")
-    ctx.floor(rule, "contractions executed", n, 30)
+    ctx.floor(rule, "contractions executed", n, 50)
     # libtensor: documented refusals
     i, j, a, b = w("ijab")
     sx = make_sx(ctx, "format_contraction[partial trace]")
@@ -557,34 +575,6 @@ def r17a(ctx):
     outs = sx.run(fn, lambda: dict(contraction=c, contraction_cache={}, backend="libtensor"))
     ctx.check(rule, fn, refused(outs), "libtensor: partial trace refused with NotImplementedError",
               f"libtensor: a partial trace (A_iia B_ja) is emitted: {outs}", key="libtensor partial trace")
-    lt = ctx.model.fn(GC + "format_libtensor_contraction")
-    outs = sx.run(lt, lambda: dict(tensors=["A()", "B()"], factors=[], target="", contracted=()))
-    ctx.check(rule, lt, refused(outs), "libtensor: product of index-free tensors refused",
-              f"libtensor: tensors without target and contracted indices are emitted: {outs}", key="libtensor no indices")
-    # the einsum formatter on its own (public helper): table incl. the bare-tensor shortcut
-    es = ctx.model.fn(GC + "format_einsum_contraction")
-    for tensors, factors, indices, target in ((["A"], [], ["ia"], "ia"), (["A"], [], ["ai"], "ia"), (["A"], [], ["ii"], "i"),
-                                              (["A"], ["f"], ["ia"], ""), (["A", "B"], ["f", "g"], ["ij", "ja"], "ia"),
-                                              ([], ["f", "g"], [], ""), (["A"], [], ["iaia"], "ia"), (["A"], [], ["ij"], "ji")):
-        sx = make_sx(ctx, "format_einsum_contraction")
-        outs = sx.run(es, lambda: dict(tensors=list(tensors), factors=list(factors), indices=list(indices), target=target))
-        key = f"einsum table {tensors} {factors} {indices}->{target}"
-        text, why = concrete(outs)
-        if text is None:
-            ctx.bad(rule, es, f"{key}: {why}", key=key)
-            continue
-        sp = lambda s: "".join("o" if ch in "ijkl" else "v" for ch in s)
-        env = em.Env({t: (("tensor", t), sp(ix)) for t, ix in zip(tensors, indices)}, {}, {f: em.value_of(f, ()) for f in factors})
-        tgt = [(ch, sp(ch)) for ch in target]
-        got, err = emitted_value(text, env, "einsum", tgt)
-        pref = 1.0
-        for f in factors:
-            pref *= em.value_of(f, ())
-        want = em.product_value([(("tensor", t), [(ch, sp(ch)) for ch in ix]) for t, ix in zip(tensors, indices)], tgt, pref)
-        d = None if err else em.first_difference(got, want)
-        ctx.check(rule, es, not err and d is None, f"{key}: `{text}`",
-                  f"{key}: emitted `{text}` " + (f"is not executable: {err}" if err else
-                                                 f"differs at {d[0]}: {d[1]} instead of {d[2]}" if d else ""), key=key)
 
 
 # ------------------------------------------------------------------------------- R17b
